@@ -92,6 +92,42 @@ def run(ctx):
     return res
 
 
+def search(ctx, broken):
+    """proof obligation or tie broken: look for a script the real parser misjudges — structural edits of many more generated
+    scripts, and nesting templates around misplaced elsif/else/require/tests; judged by the recogniser alone"""
+    r = rng("c01-search")
+    g = gen_scripts.Gen(table_of(ctx), r)
+    texts = []
+    for _ in range(300):
+        toks = g.script(2)[0]
+        for kind, pos, mt in gen_scripts.structural_edits(toks, r, limit=None):
+            texts.append(gen_scripts.render(mt))
+    inner = [b"else { stop; }", b"elsif true { stop; }", b"else { }", b'require "fileinto";', b"true", b"stop; else { keep; }", b"if true { } else { stop; }"]
+    pre = [b"", b"if true { stop; } ", b"if true { } elsif false { } ", b"stop; ", b"if true { } else { } "]
+    outer = [b"%s", b"if false { %s }", b"if true { } else { %s }", b"if true { if false { %s } }", b"if true { keep; %s }", b"if true { if true { } %s }"]
+    for a in pre:
+        for o in outer:
+            for x in inner:
+                texts.append(a + (o % x))
+                texts.append(a + (o % x) + b" keep;")
+    for b in broken:
+        d = b.get("detail")
+        if isinstance(d, dict) and "input_hex" in d:
+            texts.append(bytes.fromhex(d["input_hex"]))
+    texts = list(dict.fromkeys(texts))
+    impl, ys, model = corr_parse.eval_both(texts)
+    wfs = wf_all(texts)
+    out = []
+    for t, a, w in zip(texts, impl, wfs):
+        bad = judge(t, a, w)
+        if bad:
+            v = {"input_hex": t.hex(), "input": t.decode("latin-1"), "what": bad, "wf": w}
+            if not any(matcher(f, v) for f in findings_for("C01") if f.get("status") == "known"):
+                out.append(v)
+    out.sort(key=lambda v: len(v["input_hex"]))
+    return out
+
+
 def replay(ctx, payload):
     def oracle(t, impl, y, m):
         w = run_driver(["wf " + hx(t)])[0]
